@@ -219,8 +219,53 @@ func derivedStmts(a Atom, ei int) []string {
 		out = append(out, translateFacts(outcomeFacts(callee, AcceptNilErr), call)...)
 	case "cmp":
 		out = append(out, cmpAliases(a, holds)...)
+		// a length is never negative: len(x) != 0, 0 < len(x) and 1 <= len(x) are one statement
+		{
+			op := a.Op
+			if !holds {
+				op = negOp(op)
+			}
+			x, y := a.X, a.Y
+			if lenOf(y) != nil && lenOf(x) == nil {
+				x, y, op = y, x, swapOp(op)
+			}
+			if l := lenOf(x); l != nil {
+				if k, ok := constInt(y); ok {
+					d := "len(" + descValue(l, 1) + ")"
+					nonEmpty := (op == token.NEQ && k == 0) || (op == token.GTR && k == 0) || (op == token.GEQ && k == 1)
+					empty := (op == token.EQL && k == 0) || (op == token.LSS && k == 1) || (op == token.LEQ && k == 0)
+					if nonEmpty {
+						out = append(out, "0 != "+d, "0 < "+d, "1 <= "+d)
+					}
+					if empty {
+						out = append(out, "0 == "+d)
+					}
+				}
+			}
+		}
+		// uint(c) < uint(n): the unsigned comparison also says 0 <= c (the single-comparison range check)
+		op := a.Op
+		if !holds {
+			op = negOp(op)
+		}
+		x, y := a.X, a.Y
+		if op == token.GTR || op == token.GEQ {
+			x, y, op = y, x, swapOp(op)
+		}
+		if op == token.LSS || op == token.LEQ {
+			if cv, ok := x.(*ssa.Convert); ok && isUnsigned(cv.Type()) && isInteger(cv.X.Type()) && !isUnsigned(cv.X.Type()) {
+				if _, yc := y.(*ssa.Convert); yc || op == token.LSS {
+					out = append(out, "0 <= "+descValue(cv.X, 0))
+				}
+			}
+		}
 	}
 	return out
+}
+
+func isUnsigned(t types.Type) bool {
+	b, ok := t.Underlying().(*types.Basic)
+	return ok && b.Info()&types.IsUnsigned != 0
 }
 
 // cmpAliases: canonical renderings of three-way comparison results tested against constants.
